@@ -14,6 +14,9 @@ structure DiscAt where
   inOnDisconnect : Bool := false
   /-- disconnect() is called from another thread while loop_forever() sleeps in the back-off wait that follows -/
   inWait : Bool := false
+  /-- MQTT 5, accepted connections only: the connection is ended by a DISCONNECT packet from the server carrying this
+  reason code (instead of by the peer closing the stream) -/
+  srvDisc : Option Nat := none
   deriving DecidableEq, Repr
 
 /-- scripted outcome of one connection attempt (times relative to the socket being opened) -/
@@ -104,17 +107,30 @@ def connLife (c : Cfg) (s : St) (o : Outcome) : St × Int × Bool :=
   | .accepted t life d =>
     let s := { s with now := s.now + t, delay := none }
     let s := s.emit (.onConnect 0 s.now)
+    -- how the connection ends if the client does nothing: EOF (on_disconnect(7), _loop() returns CONN_LOST), or a server
+    -- DISCONNECT (on_disconnect(reason), loop_read() finds the socket gone and returns NO_CONN)
+    let (endShown, endRc) : Nat × Int :=
+      match d.srvDisc with
+      | some rc => if s.proto = 5 then (rc, 4) else (7, 7)
+      | none => (7, 7)
     if d.inOnConnect then
-      -- DISCONNECT is queued inside the callback and written by the next _loop() iteration (no time passes)
       let s := ({ s with disconnected := true }).emit (.userDisconnect s.now)
-      let s := s.emit (.onDisconnect 0 s.now)
-      let s := if d.inOnDisconnect then s.emit (.userDisconnect s.now) else s
-      (s, 7, false)
+      if s.proto = 5 ∧ d.srvDisc.isSome ∧ life = 0 then
+        -- the server's DISCONNECT is already waiting: _loop() reads before it writes, so it is handled before the
+        -- client's own queued DISCONNECT leaves; the user's disconnect() stands
+        let s := s.emit (.onDisconnect endShown s.now)
+        let s := if d.inOnDisconnect then s.emit (.userDisconnect s.now) else s
+        (s, endRc, false)
+      else
+        -- DISCONNECT is queued inside the callback and written by the next _loop() iteration (no time passes)
+        let s := s.emit (.onDisconnect 0 s.now)
+        let s := if d.inOnDisconnect then s.emit (.userDisconnect s.now) else s
+        (s, 7, false)
     else
       let s := { s with now := s.now + life }
-      let s := s.emit (.onDisconnect 7 s.now)
+      let s := s.emit (.onDisconnect endShown s.now)
       let s := if d.inOnDisconnect then ({ s with disconnected := true }).emit (.userDisconnect s.now) else s
-      (s, 7, false)
+      (s, endRc, false)
   | .downgrade t => ({ s with now := s.now + t }, 0, true)
 
 /-- the whole `loop_forever()` over a script; `first = true` while the state is CONNECT_ASYNC (phase 1) -/
